@@ -342,15 +342,13 @@ def classify(res, text, registry):
     return failures, tool
 
 
-def retry_function(text, fn, seeds=(1, 2, 3)):
-    """Re-verify one function in isolation with other SMT seeds and 4x rlimit.  Returns the first seed under
-    which the whole function verifies, else None.  Results are cached by content hash like the main run."""
-    parts = re.split(r'::(?![^<]*>)', fn)
-    module = parts[0]
-    name = parts[-1] if len(parts) <= 2 else parts[1] + '::' + parts[-1]
+def retry_function(text, fn, seeds=(1, 2)):
+    """Re-verify the whole MODULE of a failing function with other SMT seeds and a larger resource limit.
+    Returns the first seed under which the module verifies with 0 errors, else None.  (Module granularity:
+    inner consts and lemmas of the function are separate verification units and must be covered too.)"""
+    module = re.split(r'::(?![^<]*>)', fn)[0]
     for s in seeds:
-        res = run_verus(text, extra_args=['--verify-only-module', module, '--verify-function', name,
-                                          '--smt-option', 'smt.random_seed=%d' % s, '--rlimit', '120'], tag='retry')
+        res = run_verus(text, extra_args=['--verify-module', module, '--smt-option', 'smt.random_seed=%d' % s, '--rlimit', '180'], tag='retry')
         out = res.get('out') or {}
         vr = out.get('verification-results', {})
         if vr and not vr.get('encountered-error') and vr.get('verified', 0) >= 1 and not vr.get('errors'):
